@@ -625,24 +625,12 @@ class Discharger:
             if r["unknown"]:
                 bad.append("path [%s] has unmodelled constructs" % r["cond"][:50])
                 continue
-            cond = r["cond"]
-            if optfield:
-                present = ("self.%s=Some" % fld) in cond or any(e.startswith("set %s = Some(" % fld) for e in r["effects"])
-            else:
-                ins = [e for e in r["effects"] if e.startswith("insert %s " % fld)]
-                keytxt = None
-                m = re.search(r"self\.%s\.get\((.*)\)\.unwrap\(\)" % fld, r["outcome"])
-                if m:
-                    keytxt = m.group(1)
-                present = False
-                for e in ins:
-                    k = codegen.split_top(re.match(r"insert \w+ \[(.*)\]$", e).group(1))[0].strip()
-                    if keytxt is None or k == keytxt:
-                        present = True
-                if not present and keytxt is not None:
-                    present = ("self.%s.get(%s)=Some" % (fld, keytxt)) in cond
-            if not present:
-                bad.append("path [%s]: key not known to be present" % cond[:80])
+            # the interpreter resolves `.unwrap()` of a lookup exactly when the entry was stored earlier on the path or the
+            # path condition says it is present; an unwrap it could not resolve is left in the values of the path
+            txt = r["outcome"] + " " + " ".join(r["effects"])
+            left = re.findall(r"self\.%s(?:\.get\((?:[^()]|\([^()]*\))*\))?\.unwrap\(\)" % re.escape(fld), txt)
+            if left:
+                bad.append("path [%s]: `%s` — presence of the entry is not established" % (r["cond"][:80], left[0][:60]))
         return (not bad), "ensure-get", "`%s.unwrap()` — on each of the %d paths of %s the entry was inserted on that path or the path condition established its presence%s" % (src(recv)[:50], len(rows), fn, "" if not bad else "; EXCEPT " + "; ".join(bad))
 
     # ------------------------------------------------------------ arithmetic
